@@ -94,8 +94,10 @@ Definition failed_absent (st : store) (tip : option id) (failed_created : list i
   end.
 
 Inductive c17case :=
-  C17 (prefix : list wop) (ops : list wop) (sched : list nat)
-      (obs : list oobs) (failed_created : list id) (final : store) (tip : option id).
+| C17 (prefix : list wop) (ops : list wop) (sched : list nat)
+      (obs : list oobs) (failed_created : list id) (final : store) (tip : option id)
+  (* real git: only the reachable part of the store is observed *)
+| C17Real (prefix : list wop) (ops : list wop) (sched : list nat) (obs : list oobs) (reachable : store) (tip : option id).
 
 Definition c17_check (c : c17case) : verdict :=
   match c with
@@ -108,6 +110,22 @@ Definition c17_check (c : c17case) : verdict :=
                    && store_eqb (ls_store s) final && opt_id_eqb (ls_tip s) tip in
       if negb (chain_safe_b final tip base obs && failed_absent final tip failed) then VSpec 1
       else if negb (log_ok final tip) then (if agree then VFinding 3 else VSpec 2)
+      else if negb agree then VMismatch 1
+      else VOk
+  | C17Real prefix ops sched obs reach tip =>
+      let '(s0, _) := run_ops init_state prefix in
+      let base := match chain_ids (ls_store s0) (S (List.length (ls_store s0))) (ls_tip s0) with Some l => List.length l | None => 0 end in
+      let '(s, ws) := exec s0 ops sched in
+      let chain_eq :=
+        match chain_ids (ls_store s) (S (List.length (ls_store s))) (ls_tip s), chain_ids reach (S (List.length reach)) tip with
+        | Some a, Some b => Nat.eqb (List.length a) (List.length b)
+                            && forallb (fun p => N.eqb (fst (fst p)) (fst (snd p)) && lentry_eqb (snd (fst p)) (snd (snd p))) (combine a b)
+        | _, _ => false
+        end in
+      let agree := Nat.eqb (List.length ws) (List.length obs)
+                   && forallb (fun p => status_matches (fst p) (snd p)) (combine ws obs) && chain_eq && opt_id_eqb (ls_tip s) tip in
+      if negb (chain_safe_b reach tip base obs) then VSpec 1
+      else if negb (log_ok reach tip) then (if agree then VFinding 3 else VSpec 2)
       else if negb agree then VMismatch 1
       else VOk
   end.
